@@ -70,7 +70,10 @@ func fixBlock(from uintptr, block []byte, trampoline uintptr,
 			if l := copy(copyBlock, block); l != len(block) {
 				return nil, 0, errors.New("copy block array error")
 			}
-			fixedInsData := fixIns(ins, pos, copyBlock, blockSize, (uint64)(from), trampoline)
+			// earlier instructions may have grown (rel8 -> rel32): this one is placed at
+			// trampoline+len(fixedBlock), i.e. shifted by len(fixedBlock)-pos
+			fixedInsData := fixIns(ins, pos, copyBlock, blockSize, (uint64)(from), trampoline,
+				len(fixedBlock)-pos)
 			fixedBlock = append(fixedBlock, fixedInsData...)
 
 			logger.Debugf("[%d]>[%d] 0x%x:\t%s\t\t%s\t\t%s", ins.Len, len(fixedInsData),
@@ -96,8 +99,9 @@ func fixBlock(from uintptr, block []byte, trampoline uintptr,
 }
 
 // fixIns 替换单条指令的偏移地址
+// shift 本条指令在跳板中相对于原位置的偏移(之前的短跳转被扩展为长跳转导致)
 func fixIns(ins *x86asm.Inst, pos int, block []byte, blockSize int,
-	from uint64, trampoline uintptr) []byte {
+	from uint64, trampoline uintptr, shift int) []byte {
 	if ins.PCRelOff <= 0 {
 		// 不需要替换偏移地址
 		return block[pos : pos+ins.Len]
@@ -126,7 +130,7 @@ func fixIns(ins *x86asm.Inst, pos int, block []byte, blockSize int,
 		}
 
 		result := bytecode.EncodeAddress(block[pos:offset],
-			block[offset:offset+ins.PCRel], ins.PCRel, addr, (int)(from)-(int)(trampoline))
+			block[offset:offset+ins.PCRel], ins.PCRel, addr, (int)(from)-(int)(trampoline)-shift)
 		if len(result) > ins.PCRel {
 			// keep the bytes that follow the PC-relative field (immediate operands)
 			return append(result, block[offset+ins.PCRel:pos+ins.Len]...)
@@ -134,6 +138,15 @@ func fixIns(ins *x86asm.Inst, pos int, block []byte, blockSize int,
 	} else {
 		if ins.Op.String() == bytecode.CallInsName {
 			logger.Debug((addr)+pos+ins.Len, blockSize, (addr)+pos+ins.Len)
+		}
+		if shift != 0 && addr < 0 {
+			// the target lies before this instruction inside the copied block (only the
+			// block start passes checkJumpBetween): the instructions in between grew by shift
+			result := bytecode.EncodeAddress(block[pos:offset],
+				block[offset:offset+ins.PCRel], ins.PCRel, addr, -shift)
+			if len(result) > ins.PCRel {
+				return append(result, block[offset+ins.PCRel:pos+ins.Len]...)
+			}
 		}
 	}
 
